@@ -297,6 +297,11 @@ func init() {
 		if ex.lenient > 0 {
 			return nil, false
 		}
+		if th.id == 0 {
+			// the harness thread sleeping is the environment letting time pass
+			ex.advance(ex.cint(a[0], "sleep"))
+			return nil, false
+		}
 		// sleep until the next tick: every verifQuiesce / verifAdvance is a tick
 		if th.recoverTok {
 			th.recoverTok = false
@@ -417,6 +422,7 @@ func init() {
 			ex.reportViolation("fatal-unlock", "sync: unlock of unlocked mutex")
 		}
 		m.locked = false
+		ex.maybePreempt(th, "after-unlock")
 		return nil, false
 	}
 	I["(*sync.RWMutex).Lock"] = I["(*sync.Mutex).Lock"]
@@ -443,6 +449,7 @@ func init() {
 			ex.reportViolation("fatal-unlock", "sync: RUnlock of unlocked RWMutex")
 		}
 		m.readers--
+		ex.maybePreempt(th, "after-runlock")
 		return nil, false
 	}
 	I["(*sync.WaitGroup).Add"] = func(ex *Exec, th *Thread, fn *ssa.Function, a []Value) (Value, bool) {
